@@ -248,6 +248,7 @@ class NxMixedGraph:
         """
         self.raise_on_counterfactual()
         return _latent_dag(
+            nodes=self.nodes(),
             di_edges=self.directed.edges(),
             bi_edges=self.undirected.edges(),
             prefix=prefix,
@@ -269,6 +270,7 @@ class NxMixedGraph:
                 for a, b in itt.combinations(graph.successors(node), 2):
                     rv.add_undirected_edge(a, b)
             else:
+                rv.add_node(node)
                 for child in graph.successors(node):
                     rv.add_directed_edge(node, child)
         return rv
@@ -755,6 +757,7 @@ def _latent_dag(
     prefix: str | None = None,
     start: int = 0,
     tag: str | None = None,
+    nodes: Iterable[Variable] | None = None,
 ) -> nx.DiGraph:
     """Create a labeled DAG where bi-directed edges are assigned as nodes upstream of their two incident nodes.
 
@@ -764,6 +767,7 @@ def _latent_dag(
     :param start: The starting number for latent variables (defaults to 0, could be changed to 1 if desired)
     :param tag: The key for node data describing whether it is latent.
         If None, defaults to :data:`y0.graph.DEFAULT_TAG`.
+    :param nodes: Nodes of the graph, given so nodes without any edges are kept
     :return: A latent variable DAG.
     """
     if tag is None:
@@ -774,6 +778,7 @@ def _latent_dag(
     bi_edges_list = list(bi_edges)
 
     rv = nx.DiGraph()
+    rv.add_nodes_from(nodes or [])
     rv.add_nodes_from(itt.chain.from_iterable(bi_edges_list))
     rv.add_edges_from(di_edges)
     nx.set_node_attributes(rv, False, tag)
